@@ -31,6 +31,9 @@ type c01Node struct {
 	Lag       int64  `json:"lag"`
 	Cascade   bool   `json:"cascade"`
 	Dubious   bool   `json:"dubious"`
+	Flush     int    `json:"flush,omitempty"`       // innodb_flush_log_at_trx_commit (0 = server default 1)
+	SyncBinlog int   `json:"sync_binlog,omitempty"` // sync_binlog (0 = server default 1)
+	Reg       string `json:"reg,omitempty"`         // optimisation registry entry: "" none | "new" | "enabled"
 }
 type c01In struct {
 	N          int       `json:"n"` // hosts h1..hN, h1 = old master
@@ -55,6 +58,7 @@ type c01Promotion struct {
 	Host  string             `json:"host"`
 	Nodes map[string]vk.Node `json:"-"`
 	Mon   int64              `json:"-"`
+	Registry []string        `json:"-"` // optimisation registry at that instant
 }
 
 type c01Out struct {
@@ -65,6 +69,7 @@ type c01Out struct {
 	MemBefore  string
 	Sw         Switchover
 	Promotions []c01Promotion
+	Freezes    []c01Promotion // first SET read_only=1 per host, with the world at that instant
 	Emerge     bool
 	AllHosts   []string
 	Cascades   map[string]bool
@@ -113,7 +118,16 @@ func c01Run(in c01In) c01Out {
 			dl := in.ReplMonDelay
 			n.ReplMonDelay = &dl
 		}
+		if c.Flush != 0 {
+			n.Flush = c.Flush
+		}
+		if c.SyncBinlog != 0 {
+			n.SyncBinlog = c.SyncBinlog
+		}
 		w.AddNode(n)
+		if c.Reg != "" {
+			d.rawSet(dcs.JoinPath("optimization_nodes", h), map[string]string{"status": map[string]string{"new": "", "enabled": "enabled"}[c.Reg]})
+		}
 		if c.Cascade {
 			d.rawSet(dcs.JoinPath(pathCascadeNodesPrefix, h), mysql.CascadeNodeConfiguration{StreamFrom: "h1"})
 			out.Cascades[h] = true
@@ -170,13 +184,22 @@ func c01Run(in c01In) c01Out {
 			}
 		}
 	}
+	frozen := map[string]bool{}
 	w.OnStatement = func(w *vk.World, n *vk.Node, caller, kind, arg string) {
+		if kind == "SSetRO" && !frozen[n.Host] {
+			frozen[n.Host] = true
+			snap := map[string]vk.Node{}
+			for h, x := range w.Nodes {
+				snap[h] = *x
+			}
+			out.Freezes = append(out.Freezes, c01Promotion{Host: n.Host, Nodes: snap, Registry: d.rawChildren("optimization_nodes")})
+		}
 		if kind == "SSetWritable" {
 			snap := map[string]vk.Node{}
 			for h, x := range w.Nodes {
 				snap[h] = *x
 			}
-			out.Promotions = append(out.Promotions, c01Promotion{Host: n.Host, Nodes: snap})
+			out.Promotions = append(out.Promotions, c01Promotion{Host: n.Host, Nodes: snap, Registry: d.rawChildren("optimization_nodes")})
 		}
 	}
 	d.onLock = func() {
